@@ -4,7 +4,7 @@
 usage: verify_benign.py <dir-with-patch.diff> [...]
 Scratch worktrees live under /tmp/vwt and are removed afterwards.  Prints one line per patch.
 """
-import json, os, subprocess, sys
+import json, os, subprocess, sys, threading
 from concurrent.futures import ThreadPoolExecutor
 from pathlib import Path
 
@@ -13,6 +13,18 @@ base_file = Path(f"/tmp/vwt_baseline_{head[:10]}.json")
 if not base_file.exists():
     subprocess.run(["/venv/bin/python", "/verif/tools/seeded_baseline.py"], check=True, stdout=subprocess.DEVNULL)
 baseline = json.loads(base_file.read_text())
+BASE_COMMITS = ["b59310b", "8fb63a3", "1e5babd"]
+_lock = threading.Lock()
+
+
+def baseline_for(full):
+    with _lock:
+        f = Path(f"/tmp/vwt_baseline_{full[:10]}.json")
+        if not f.exists():
+            subprocess.run(["/venv/bin/python", "/verif/tools/seeded_baseline.py", full], check=True, stdout=subprocess.DEVNULL)
+        return json.loads(f.read_text())
+
+
 CODE = ("import sys, json; sys.path.insert(0,'/verif'); from sa.run import run_property; from sa.model import AnalysisError\n"
         "try:\n    code, rep = run_property('{pid}', 'quick', quiet=True, write=False)\n    kn, new = rep.split_known()\n"
         "    print('RESULT', json.dumps([code, [f.key for f in new]]))\nexcept AnalysisError as e:\n"
@@ -27,6 +39,16 @@ def one(d: Path):
     subprocess.run(["git", "-C", "/repo", "worktree", "add", "-q", "--detach", str(wt), "HEAD"], check=True)
     try:
         r = subprocess.run(["git", "-C", str(wt), "apply", "--whitespace=nowarn", str((d / "patch.diff").resolve())], capture_output=True, text=True)
+        base, extra = baseline, {}
+        if r.returncode != 0:
+            # a later repair in /repo touched the same lines: evaluate on the commit the refactoring was written for
+            for cand in BASE_COMMITS:
+                subprocess.run(["git", "-C", str(wt), "checkout", "-q", "--detach", cand], check=True)
+                r = subprocess.run(["git", "-C", str(wt), "apply", "--whitespace=nowarn", str((d / "patch.diff").resolve())], capture_output=True, text=True)
+                if r.returncode == 0:
+                    full = subprocess.run(["git", "-C", str(wt), "rev-parse", "HEAD"], capture_output=True, text=True).stdout.strip()
+                    base, extra = baseline_for(full), {"evaluated_on_commit": full[:10]}
+                    break
         if r.returncode != 0:
             return name, {"applies": False, "err": r.stderr[-200:]}
         fired = {}
@@ -34,10 +56,10 @@ def one(d: Path):
             p = subprocess.run(["/venv/bin/python", "-c", CODE.replace("{pid}", pid)], capture_output=True, text=True, env=dict(os.environ, VERIF_REPO=str(wt)), cwd="/verif")
             line = next((l for l in p.stdout.splitlines() if l.startswith("RESULT")), None)
             code, keys = json.loads(line[7:]) if line else (3, ["CRASH " + p.stderr[-300:]])
-            newk = [k for k in keys if k not in baseline.get(pid, [])]
+            newk = [k for k in keys if k not in base.get(pid, [])]
             if code != 0 and newk:
                 fired[pid] = newk[:6]
-        return name, {"applies": True, "fired": fired}
+        return name, dict({"applies": True, "fired": fired}, **extra)
     finally:
         subprocess.run(["git", "-C", "/repo", "worktree", "remove", "--force", str(wt)], capture_output=True)
 
